@@ -186,3 +186,8 @@ def run(tier):
 
 def replay(path):
     return LC.replay(path)
+
+
+def selftest():
+    import os
+    return LC.selftest(("wtr", 2, "A_WTR", (1, 1, 1)), seeded=os.environ.get("VERIF_SELFTEST_SEEDED", "1") == "1")
